@@ -321,8 +321,14 @@ def classify_default(why, f, c, o):
 
 
 def run_property(ctx, prop, fams, n_quick, n_thorough, classify=classify_default, extra_cases=None):
+    from checks import exec_model
     tlc.stage(ctx.work)
     tlc.sany(ctx.work, "Mon_Exec")
+    # (A) design level: exhaustive TLC on LokyExecutor.tla slices; (B) spec -> code: TLC behaviours become E-SIM fault plans
+    d17 = exec_model.run_slices(ctx, prop)
+    guided = exec_model.guided_cases(ctx, prop, 150 if ctx.tier == "thorough" else 25, d17)
+    ctx.extra["tlc_guided_cases"] = len(guided)
+    extra_cases = (extra_cases or []) + guided
     n = n_thorough if ctx.tier == "thorough" else n_quick
     cases = gen_cases(ctx.seed * 1000003 + int(prop[1:]), n, fams)
     if extra_cases:
